@@ -375,13 +375,47 @@ func ruleEscSet(c *Ctx, h *htxEngine) {
 		if len(fn.Params) == 2 {
 			src = fn.Params[1]
 		}
+		// search-walk form: `i := bytes.IndexAny(text, set)` over a walking text variable (a phi fed by the parameter);
+		// the byte classified is text[i] and only bytes of the set ever reach the classification
+		var walkPhi ssa.Value
+		var search *ssa.Call
+		searchSet := ""
+		eachInstr(fn, func(in ssa.Instruction) {
+			call, ok := in.(*ssa.Call)
+			if !ok {
+				return
+			}
+			f := call.Call.StaticCallee()
+			if f == nil || f.Pkg == nil || f.Pkg.Pkg.Path() != "bytes" || f.Name() != "IndexAny" {
+				return
+			}
+			ph, isPhi := call.Call.Args[0].(*ssa.Phi)
+			if !isPhi {
+				return
+			}
+			fed := false
+			for _, e := range ph.Edges {
+				if e == src {
+					fed = true
+				}
+			}
+			if set, ok := constString(call.Call.Args[1]); ok && fed {
+				walkPhi, search, searchSet = ph, call, set
+			}
+		})
 		isScan := func(v ssa.Value) bool {
 			ld, ok := v.(*ssa.UnOp)
 			if !ok || ld.Op != token.MUL {
 				return false
 			}
 			ia, ok := ld.X.(*ssa.IndexAddr)
-			return ok && ia.X == src
+			if !ok {
+				return false
+			}
+			if search != nil {
+				return ia.X == walkPhi && ia.Index == ssa.Value(search)
+			}
+			return ia.X == src
 		}
 		var loop *natLoop
 		for _, l := range naturalLoops(fn) {
@@ -401,7 +435,18 @@ func ruleEscSet(c *Ctx, h *htxEngine) {
 			mixed := map[byte][]string{}
 			other := map[byte][]string{}
 			for d := 0; d < 256; d++ {
+				if search != nil && !strings.ContainsRune(searchSet, rune(d)) || (search != nil && d >= 0x80) {
+					continue // never found by the search: copied as part of a verbatim run
+				}
 				st := &evalState{e: bs, fn: fn, isSym: isScan, d: int64(d), from: make([]int, len(fn.Blocks))}
+				if search != nil {
+					st.symVal = func(v ssa.Value) (int64, bool) {
+						if v == ssa.Value(search) {
+							return 0, true // found (the not-found exit is a different path)
+						}
+						return 0, false
+					}
+				}
 				for k := range st.from {
 					st.from[k] = -2
 				}
@@ -499,41 +544,88 @@ func ruleEscSet(c *Ctx, h *htxEngine) {
 		}
 		n := 0
 		okAll, why := true, ""
+		// search-walk form: the classification sees text[i] for i := bytes.IndexAny(text, set); every byte of the set is
+		// found iff the search always runs over the whole remaining text and restarts right after the byte found
+		var wsearch *ssa.Call
+		var wphi *ssa.Phi
 		eachInstr(fn, func(in ssa.Instruction) {
-			ia, ok := in.(*ssa.IndexAddr)
+			call, ok := in.(*ssa.Call)
 			if !ok {
 				return
 			}
-			// only element loads that feed the classification (compared with constants)
-			feeds := false
-			for _, r := range refsOf(ia) {
-				if ld, ok := r.(*ssa.UnOp); ok {
-					for _, rr := range refsOf(ld) {
-						if bo, ok := rr.(*ssa.BinOp); ok && (bo.Op == token.EQL || bo.Op == token.NEQ || bo.Op == token.GEQ || bo.Op == token.LSS || bo.Op == token.GTR || bo.Op == token.LEQ) {
-							feeds = true
-						}
+			f := call.Call.StaticCallee()
+			if f == nil || f.Pkg == nil || f.Pkg.Pkg.Path() != "bytes" || f.Name() != "IndexAny" {
+				return
+			}
+			if ph, isPhi := call.Call.Args[0].(*ssa.Phi); isPhi {
+				for _, e := range ph.Edges {
+					if e == src {
+						wsearch, wphi = call, ph
 					}
 				}
 			}
-			if !feeds {
-				return
-			}
-			n++
-			if ia.X != src {
-				okAll, why = false, "the bytes classified are not elements of the whole source parameter"
-				return
-			}
-			if ok2, w := unitStrideOver(ia.Index, src); !ok2 {
-				okAll, why = false, w
-			}
 		})
-		if n == 0 {
-			okAll, why = false, "no per-byte classification loop found"
+		if wsearch != nil {
+			for i, e := range wphi.Edges {
+				if e == src {
+					continue
+				}
+				_ = i
+				sl, isSl := e.(*ssa.Slice)
+				good := false
+				if isSl && sl.X == ssa.Value(wphi) && sl.High == nil && sl.Low != nil {
+					if bo, isBo := sl.Low.(*ssa.BinOp); isBo && bo.Op == token.ADD && bo.X == ssa.Value(wsearch) {
+						if k, isK := constInt(bo.Y); isK && k == 1 {
+							good = true
+						}
+					}
+				}
+				if !good {
+					okAll, why = false, "after a find the text does not continue exactly one byte behind it: bytes are skipped or rescanned"
+				}
+			}
+			if why == "" {
+				why = "the search covers the whole remaining text and restarts right after each byte found"
+			}
+			c.Check(okAll, "ESC-SET", "escapeHTML:covers-every-byte", fn.Pos(), why)
 		}
-		if why == "" {
-			why = "every byte of the source is classified exactly once"
+		if wsearch == nil {
+			eachInstr(fn, func(in ssa.Instruction) {
+				ia, ok := in.(*ssa.IndexAddr)
+				if !ok {
+					return
+				}
+				// only element loads that feed the classification (compared with constants)
+				feeds := false
+				for _, r := range refsOf(ia) {
+					if ld, ok := r.(*ssa.UnOp); ok {
+						for _, rr := range refsOf(ld) {
+							if bo, ok := rr.(*ssa.BinOp); ok && (bo.Op == token.EQL || bo.Op == token.NEQ || bo.Op == token.GEQ || bo.Op == token.LSS || bo.Op == token.GTR || bo.Op == token.LEQ) {
+								feeds = true
+							}
+						}
+					}
+				}
+				if !feeds {
+					return
+				}
+				n++
+				if ia.X != src {
+					okAll, why = false, "the bytes classified are not elements of the whole source parameter"
+					return
+				}
+				if ok2, w := unitStrideOver(ia.Index, src); !ok2 {
+					okAll, why = false, w
+				}
+			})
+			if n == 0 {
+				okAll, why = false, "no per-byte classification loop found"
+			}
+			if why == "" {
+				why = "every byte of the source is classified exactly once"
+			}
+			c.Check(okAll, "ESC-SET", "escapeHTML:covers-every-byte", fn.Pos(), why)
 		}
-		c.Check(okAll, "ESC-SET", "escapeHTML:covers-every-byte", fn.Pos(), why)
 	}
 	var set []string
 	for b, ent := range replaced {
@@ -552,6 +644,9 @@ func ruleEscSet(c *Ctx, h *htxEngine) {
 	for in, ev := range h.events[fn] {
 		if ev.kind == evRaw {
 			if call, isCall := in.(*ssa.Call); isCall && len(call.Call.Args) == 2 && isStringPhiOfConsts(call.Call.Args[1]) {
+				continue
+			}
+			if call, isCall := in.(*ssa.Call); isCall && len(call.Call.Args) == 2 && sliceOfWalkingSource(call.Call.Args[1], fn) {
 				continue
 			}
 			if !strings.HasPrefix(ev.desc, "src") {
@@ -664,12 +759,12 @@ func init() {
 		Control{Name: "entity-scan-stops-only-at-space", Props: []string{"C07"}, File: "inlines.go",
 			Old: "\t\t\tcase !isASCIILetter(c) && !isASCIIDigit(c):\n\t\t\t\treturn -1\n\t\t\t}\n\t\t}\n\t\treturn -1\n\t}\n\n\tif text[2] == 'x'", New: "\t\t\tcase c == ' ' || c == '&':\n\t\t\t\treturn -1\n\t\t\t}\n\t\t}\n\t\treturn -1\n\t}\n\n\tif text[2] == 'x'", Expect: "CHARREF-ALPHABET"},
 		Control{Name: "render-budget-refuses-descent-after-open", Props: []string{"C07", "C10"}, File: "html_renderer.go",
-			Old: "\t\t\tif b := c.Node().Block(); b != nil {\n\t\t\t\treturn state.preBlock(block.Source, c)\n\t\t\t}",
-			New: "\t\t\tif b := c.Node().Block(); b != nil {\n\t\t\t\treturn state.preBlock(block.Source, c) && len(state.dst) < 1<<20\n\t\t\t}",
+			Old:    "\t\t\tif b := c.Node().Block(); b != nil {\n\t\t\t\treturn state.preBlock(block.Source, c)\n\t\t\t}",
+			New:    "\t\t\tif b := c.Node().Block(); b != nil {\n\t\t\t\treturn state.preBlock(block.Source, c) && len(state.dst) < 1<<20\n\t\t\t}",
 			Expect: "WALK-WIRING/(*HTMLRenderer).AppendBlock:Pre:returns", Why: "Pre refuses descent after preBlock opened the element: no closing tag"},
 		Control{Name: "post-aborts-walk", Props: []string{"C07", "C10"}, File: "html_renderer.go",
-			Old: "\t\t\tif i := c.Node().Inline(); i != nil {\n\t\t\t\treturn state.postInline(block.Source, i)\n\t\t\t}\n\t\t\treturn true",
-			New: "\t\t\tif i := c.Node().Inline(); i != nil {\n\t\t\t\treturn state.postInline(block.Source, i)\n\t\t\t}\n\t\t\treturn false",
+			Old:    "\t\t\tif i := c.Node().Inline(); i != nil {\n\t\t\t\treturn state.postInline(block.Source, i)\n\t\t\t}\n\t\t\treturn true",
+			New:    "\t\t\tif i := c.Node().Inline(); i != nil {\n\t\t\t\treturn state.postInline(block.Source, i)\n\t\t\t}\n\t\t\treturn false",
 			Expect: "WALK-WIRING/(*HTMLRenderer).AppendBlock:Post:returns"},
 		Control{Name: "neg-pre-callback-with-local", Props: []string{"C07", "C10", "C19"}, File: "html_renderer.go", Negative: true,
 			Old: "\t\t\tif b := c.Node().Block(); b != nil {\n\t\t\t\treturn state.preBlock(block.Source, c)\n\t\t\t}\n\t\t\tif i := c.Node().Inline(); i != nil {\n\t\t\t\treturn state.preInline(block.Source, i)\n\t\t\t}\n\t\t\treturn true",
@@ -823,4 +918,37 @@ func isStringPhiOfConsts(v ssa.Value) bool {
 	}
 	_, isPhi := v.(*ssa.Phi)
 	return isPhi && w(v)
+}
+
+// sliceOfWalkingSource: v is the source parameter, a walking variable fed by it (phi of the parameter and re-slices of
+// itself), or a slice of one of these.
+func sliceOfWalkingSource(v ssa.Value, fn *ssa.Function) bool {
+	if len(fn.Params) != 2 {
+		return false
+	}
+	src := ssa.Value(fn.Params[1])
+	seen := map[ssa.Value]bool{}
+	var w func(v ssa.Value, d int) bool
+	w = func(v ssa.Value, d int) bool {
+		if v == src {
+			return true
+		}
+		if seen[v] || d > 8 {
+			return true
+		}
+		seen[v] = true
+		switch x := v.(type) {
+		case *ssa.Slice:
+			return w(x.X, d+1)
+		case *ssa.Phi:
+			for _, e := range x.Edges {
+				if !w(e, d+1) {
+					return false
+				}
+			}
+			return true
+		}
+		return false
+	}
+	return w(v, 0)
 }
